@@ -64,13 +64,13 @@ CLAIMED = {
             "kernels under C02); C03_c_wps_kernel_with_bound_as_written: the C warping-paths kernel "
             "dtw_warping_paths_ndim regenerated whole (Gen_cwpsk.v) run with ANY bound returns 'v if v<=B else inf' "
             "for the specification value v, every cell of its compact array equal to the specification cell or both "
-            "above the bound, all accesses in range (CWpsPrune/SpecB/ValueB.v), use_pruning being such a bound; "
+            "above the bound, all accesses in range (CWpsPrune/SpecB/ValueB.v), its Euclidean twin likewise "
+            "(C03_c_wps_euclidean_kernel_with_bound_as_written), use_pruning being such a bound; "
             "the Euclidean bound never cuts the distance where ED is a valid upper bound; the "
             "implementation's max_dist/use_pruning results (py/C distance, warping_paths, distance matrices) are "
             "compared with the specification and, for the single-pair routines of both engines, with the "
             "as-written model",
-            "Euclidean twin of the C warping-paths kernel under a bound: one row core with the squared kernel "
-            "(C03_c_wps_rows_share_one_pruning_core) + correspondence; -1 marks and float rounding: correspondence",
+            "-1 marks of the C warping-paths kernels and float rounding: correspondence",
             "Coq proof (PrunedDTW: abstract soundness + refinement of the as-written Python routine and of the "
             "regenerated C kernel and of the regenerated dtw.distance, C03_py_distance_as_written_bounded) + correspondence"),
     "C09": ("Coq theorems C09_lb_keogh_le_dtw and C09_dtw_le_euclidean for all series/windows/penalties; "
